@@ -346,6 +346,7 @@ func TestC06_Fsmx(t *testing.T) {
 			}
 			r2.stop(h.t)
 			sp.Class("boundaries_checked")
+			sp.Eval() // one evaluated case per crash point
 		}
 		// cleanup statuses on restart (fault at the boundary that persisted them)
 		oc := newOCleanup()
@@ -354,7 +355,7 @@ func TestC06_Fsmx(t *testing.T) {
 				sp.Class("boundary_in_cleanup_status_restarted")
 			}
 		}
-		sp.Eval()
+		sp.Class("histories")
 		sp.ClassN("channels", nch)
 		if sp.WantSample() {
 			hl := h.log
